@@ -1,5 +1,8 @@
 import Hive.Proofs.DerivedSet
 import Hive.Proofs.DerivedCounter
+import Hive.Proofs.DerivedSorted
+import Hive.Spec.Derived
+import Hive.Gen.C14_Skel
 /-!
 # C14 — derived reactive values converge to their defining function
 
@@ -119,5 +122,157 @@ theorem C14_waitgroup_sequential (ops : List WGOp) :
     | done xs =>
       have := wgDoneLoop_spec xs s h2 h1
       exact ih _ this.2 this.1
+
+/-! ## SortedSet -/
+
+/-- **SortedSet.** After every history of `Add` / `Delete` / `Apply` on the set and of weight updates
+(of members, of elements that were never added, of removed elements) the slice is sorted by current
+weight (heaviest first; ties by `Less` when the element type has it), the `index` fields equal the
+positions, every entry carries the current value of its weight variable, no element occurs twice, and
+`HeaviestElement` / `LightestElement` name the two ends (zero value when empty). -/
+theorem C14_sorted_set (less : Bool) (ops : List SSOp) : ((SS.init less).run ops).Good :=
+  SS.good_reachable less ops
+
+/-- The order the quiescence predicate of the driver (`qSorted`, via `sortedOk`) checks is implied by `Good.sorted`. -/
+theorem C14_sorted_set_spec (less : Bool) (ops : List SSOp) :
+    sortedOk less ((SS.init less).run ops).ents = true := by
+  have h := (SS.good_reachable less ops).sorted
+  have hl : ((SS.init less).run ops).less = less := SS.less_run _ ops
+  rw [hl] at h
+  generalize ((SS.init less).run ops).ents = l at h
+  induction l with
+  | nil => rfl
+  | cons a r ih =>
+    cases r with
+    | nil => rfl
+    | cons b r =>
+      simp only [sortedOk, Bool.and_eq_true, Bool.not_eq_true']
+      rw [List.pairwise_cons] at h
+      exact ⟨h.1 b (List.mem_cons_self ..), ih h.2⟩
+
+/-- The elements of the slice are exactly the contents of the underlying set. -/
+theorem C14_sorted_set_members (less : Bool) (ops : List SSOp) (op : SSOp) (e : Nat) :
+    (((SS.init less).run ops).step op).has e = memSpec ((SS.init less).run ops).has op e :=
+  SS.has_reachable_step less ops op e
+
+/-- **Weight changes of removed (or never added) elements are ignored.** -/
+theorem C14_sorted_set_absent_weight (s : SS) (e : Nat) (w : Int) (h : s.has e = false) :
+    (s.step (.weight e w)).ents = s.ents ∧ (s.step (.weight e w)).heaviest = s.heaviest ∧
+      (s.step (.weight e w)).lightest = s.lightest :=
+  SS.weight_of_absent s e w h
+
+example : ((SS.init true).run [.apply [1, 2, 3] [], .weight 2 5, .weight 3 5, .apply [] [1], .weight 1 9]).ents
+    = [{ el := 3, w := 5, idx := 0 }, { el := 2, w := 5, idx := 1 }] := by decide
+
+/-! ## Regenerated synchronisation skeletons
+
+`Hive/Gen/C14_Skel.lean` is regenerated from the working tree on every run.  These are the skeletons
+the protocol models (`DerivedVar`, `DerivedWG`) and the lock scripts (`DerivedLocks`) were written
+against: where a lock is taken and released, which callbacks are invoked under which lock, where the
+WaitGroup touches its atomic counter.  A change of that structure breaks these obligations. -/
+section Skeletons
+open Hive.Gen.C14Skel
+
+/-- sortedSet.addSorted (sorted_set_impl.go:100) -/
+theorem C14_skeleton_sortedSet_addSorted : skel_sortedSet_addSorted = [
+  "lock s.mutex", "defer unlock s.mutex", "func{", "return", "}func", "if{", "func{", "if{",
+  "lock s.mutex", "defer unlock s.mutex", "call s.elements.Get", "if{", "return", "}if", "}if",
+  "call s.updatePosition", "}func", "call s.weightVariable(element).OnUpdate", "}if"] := by decide
+
+/-- sortedSet.deleteSorted (sorted_set_impl.go:128) -/
+theorem C14_skeleton_sortedSet_deleteSorted : skel_sortedSet_deleteSorted = [
+  "defer func{", "if{", "}if", "}func", "lock s.mutex", "defer unlock s.mutex", "if{", "for{", "}for",
+  "if{", "if{", "call s.heaviestElement.Set", "}else{", "call s.heaviestElement.Set", "}if", "}if",
+  "if{", "if{", "call s.lightestElement.Set", "}else{", "call s.lightestElement.Set", "}if", "}if",
+  "}if"] := by decide
+
+/-- sortedSet.Ascending (sorted_set_impl.go:58) -/
+theorem C14_skeleton_sortedSet_Ascending : skel_sortedSet_Ascending = [
+  "rlock s.mutex", "defer runlock s.mutex", "if{", "for{", "}for", "}if", "return"] := by decide
+
+/-- variable.Compute (variable_impl.go:48) -/
+theorem C14_skeleton_variable_Compute : skel_variable_Compute = [
+  "lock v.updateOrderMutex", "defer unlock v.updateOrderMutex", "helper updateValue", "for{",
+  "call registeredCallback.LockExecution", "if{", "call registeredCallback.Invoke",
+  "call registeredCallback.UnlockExecution", "}if", "}for", "return"] := by decide
+
+/-- variable.updateValue (variable_impl.go:109) -/
+theorem C14_skeleton_variable_updateValue : skel_variable_updateValue = [
+  "lock v.valueMutex", "defer unlock v.valueMutex", "if{", "}if", "return"] := by decide
+
+/-- readableVariable.OnUpdate (variable_impl.go:184) -/
+theorem C14_skeleton_readableVariable_OnUpdate : skel_readableVariable_OnUpdate = [
+  "lock r.valueMutex", "call createdCallback.LockExecution", "defer call createdCallback.UnlockExecution",
+  "unlock r.valueMutex", "if{", "call createdCallback.Invoke", "}if", "func{",
+  "call createdCallback.MarkUnsubscribed", "}func", "return"] := by decide
+
+/-- readableVariable.Get (variable_impl.go:150) -/
+theorem C14_skeleton_readableVariable_Get : skel_readableVariable_Get = [
+  "rlock r.valueMutex", "defer runlock r.valueMutex", "return"] := by decide
+
+/-- variable.InheritFrom (variable_impl.go:82) -/
+theorem C14_skeleton_variable_InheritFrom : skel_variable_InheritFrom = [
+  "func{", "call v.Set", "}func", "call other.OnUpdate", "return"] := by decide
+
+/-- waitGroup.Add (wait_group_impl.go:38) -/
+theorem C14_skeleton_waitGroup_Add : skel_waitGroup_Add = [
+  "call w.pendingElementsCounter.Add", "for{", "call w.pendingElements.Add", "if{",
+  "call w.pendingElementsCounter.Add", "if{", "call w.Trigger", "}if", "}if", "}for"] := by decide
+
+/-- waitGroup.Done (wait_group_impl.go:57) -/
+theorem C14_skeleton_waitGroup_Done : skel_waitGroup_Done = [
+  "for{", "call w.pendingElements.Delete", "call w.pendingElementsCounter.Add", "if{", "call w.Trigger",
+  "}if", "}for"] := by decide
+
+/-- evictionState.Evict (eviction_state_impl.go:52) -/
+theorem C14_skeleton_evictionState_Evict : skel_evictionState_Evict = [
+  "helper evict", "for{", "call slotEvictedEvent.Trigger", "}for"] := by decide
+
+/-- evictionState.evict (eviction_state_impl.go:59) -/
+theorem C14_skeleton_evictionState_evict : skel_evictionState_evict = [
+  "lock e.mutex", "defer unlock e.mutex", "if{", "return", "}if", "if{", "}else{", "}if", "for{",
+  "call e.evictionEvents.Get", "if{", "call e.evictionEvents.Delete", "}if", "}for", "return"] := by decide
+
+/-- evictionState.EvictionEvent (eviction_state_impl.go:40) -/
+theorem C14_skeleton_evictionState_EvictionEvent : skel_evictionState_EvictionEvent = [
+  "rlock e.mutex", "defer runlock e.mutex", "if{", "return", "}if", "return"] := by decide
+
+/-- derivedSet.inheritMutations (set_impl.go:304) -/
+theorem C14_skeleton_derivedSet_inheritMutations : skel_derivedSet_inheritMutations = [
+  "lock s.mutex", "defer unlock s.mutex", "helper applyInheritedMutations", "for{",
+  "call registeredCallback.LockExecution", "if{", "call registeredCallback.Invoke",
+  "call registeredCallback.UnlockExecution", "}if", "}for", "return"] := by decide
+
+/-- derivedSet.applyInheritedMutations (set_impl.go:322) -/
+theorem C14_skeleton_derivedSet_applyInheritedMutations : skel_derivedSet_applyInheritedMutations = [
+  "lock s.readableSet.mutex", "defer unlock s.readableSet.mutex", "call s.value.Apply", "return"] := by decide
+
+/-- set.Apply (set_impl.go:50) -/
+theorem C14_skeleton_set_Apply : skel_set_Apply = [
+  "if{", "return", "}if", "lock s.mutex", "defer unlock s.mutex", "if{", "return", "}if", "for{",
+  "call registeredCallback.LockExecution", "if{", "call registeredCallback.Invoke",
+  "call registeredCallback.UnlockExecution", "}if", "}for", "return"] := by decide
+
+/-- readableSet.OnUpdate (set_impl.go:177) -/
+theorem C14_skeleton_readableSet_OnUpdate : skel_readableSet_OnUpdate = [
+  "lock r.mutex", "call createdCallback.LockExecution", "defer call createdCallback.UnlockExecution",
+  "unlock r.mutex", "if{", "call createdCallback.Invoke", "}if", "func{",
+  "call createdCallback.MarkUnsubscribed", "}func", "return"] := by decide
+
+/-- counter.Monitor (counter_impl.go:27) -/
+theorem C14_skeleton_counter_Monitor : skel_counter_Monitor = [
+  "func{", "func{", "if{", "if{", "}else{", "}if", "}if", "return", "}func", "call c.Compute", "}func",
+  "call input.OnUpdate", "func{", "func{", "if{", "}if", "return", "}func", "call c.Compute", "}func",
+  "return"] := by decide
+
+/-- callback.LockExecution (utils.go:33) -/
+theorem C14_skeleton_callback_LockExecution : skel_callback_LockExecution = [
+  "lock c.executionMutex", "if{", "unlock c.executionMutex", "return", "}if", "return"] := by decide
+
+/-- callback.MarkUnsubscribed (utils.go:53) -/
+theorem C14_skeleton_callback_MarkUnsubscribed : skel_callback_MarkUnsubscribed = [
+  "lock c.executionMutex", "defer unlock c.executionMutex"] := by decide
+
+end Skeletons
 
 end Hive.Derived
